@@ -823,3 +823,55 @@ def subst_formula(f, mapping):
     if isinstance(f, AIsInst):
         return AIsInst(subst_term(f.x, mapping), subst_term(f.t, mapping))
     return f
+
+
+def strip_epochs(x):
+    """Remove the '@t' (state epoch) and '@v' (container version) wrappers from a term or formula."""
+    if isinstance(x, App) and x.fn in ('@t', '@v'):
+        return strip_epochs(x.args[0])
+    if isinstance(x, Attr):
+        return Attr(strip_epochs(x.base), x.name)
+    if isinstance(x, Sub):
+        return Sub(strip_epochs(x.base), strip_epochs(x.index))
+    if isinstance(x, App):
+        args = tuple(strip_epochs(a) for a in x.args)
+        kw = tuple((k, strip_epochs(v)) for k, v in x.kw)
+        if x.fn in ('min', 'max') and not kw:
+            return mk_minmax(x.fn, args)
+        return App(x.fn, args, kw)
+    if isinstance(x, Poly):
+        out = Num(Fraction(0))
+        for mon, c in x.mons:
+            term = Num(c)
+            for a in mon:
+                term = mul(term, strip_epochs(a))
+            out = add(out, term)
+        return out
+    if isinstance(x, TupleT):
+        return TupleT(tuple(strip_epochs(a) for a in x.items))
+    if isinstance(x, BoolT):
+        return BoolT(strip_epochs(x.f))
+    if isinstance(x, IfT):
+        return IfT(strip_epochs(x.cond), strip_epochs(x.a), strip_epochs(x.b))
+    if isinstance(x, FAnd):
+        return f_and(*[strip_epochs(p) for p in x.parts])
+    if isinstance(x, FOr):
+        return f_or(*[strip_epochs(p) for p in x.parts])
+    if isinstance(x, FNot):
+        return f_not(strip_epochs(x.f))
+    if isinstance(x, ACmp):
+        return mk_cmp(strip_epochs(x.base), x.op, Num(x.k))
+    if isinstance(x, AIn):
+        return AIn(strip_epochs(x.x), strip_epochs(x.container))
+    if isinstance(x, AIs):
+        return AIs(strip_epochs(x.a), strip_epochs(x.b))
+    if isinstance(x, AEq):
+        return AEq(strip_epochs(x.a), strip_epochs(x.b))
+    if isinstance(x, ATruthy):
+        return ATruthy(strip_epochs(x.t))
+    if isinstance(x, ADiv):
+        e, _ = sign_normalise(strip_epochs(x.e))
+        return ADiv(strip_epochs(x.mod), e)
+    if isinstance(x, AIsInst):
+        return AIsInst(strip_epochs(x.x), strip_epochs(x.t))
+    return x
